@@ -144,6 +144,133 @@ def main():
     n += 1
     if out(lambda: CN().h(1)) != ["int", "obj", True]:
         fail("call_next_on_bound_method", got=out(lambda: CN().h(1)))
+    # call_next / recurse inherited through extend_super: base, subclass and sibling each keep working in every order
+    # of first use (each class's function rewrites the SAME inherited method for itself)
+    import itertools
+
+    for order in itertools.permutations(range(3)):
+        class CB(OvldBase):
+            def h(self, x: int):
+                return ["CB.int"] + call_next(x)
+
+            def h(self, x: object):
+                return ["CB.obj"]
+
+            def t(self, xs: list):
+                return [recurse(x) for x in xs]
+
+            def t(self, x: int):
+                return "CB.t.int"
+
+        class CS(CB):
+            @extend_super
+            def h(self, x: bool):
+                return ["CS.bool"] + call_next(x)
+
+            @extend_super
+            def t(self, x: int):
+                return "CS.t.int"
+
+        class CT(CB):
+            @extend_super
+            def h(self, x: str):
+                return ["CT.str"] + call_next(x)
+
+        classes = (CB, CS, CT)
+        want = {
+            CB: [["CB.int", "CB.obj"], ["CB.int", "CB.obj"], ["CB.obj"], ["CB.t.int", ["CB.t.int"]]],
+            CS: [["CB.int", "CB.obj"], ["CS.bool", "CB.int", "CB.obj"], ["CB.obj"], ["CS.t.int", ["CS.t.int"]]],
+            CT: [["CB.int", "CB.obj"], ["CB.int", "CB.obj"], ["CT.str", "CB.obj"], ["CB.t.int", ["CB.t.int"]]],
+        }
+        for rnd in range(2):  # second round: everything is built, whoever was built last must not have captured anything
+            for i in order:
+                cls = classes[i]
+                n += 1
+                got = [out(lambda: cls().h(1)), out(lambda: cls().h(True)), out(lambda: cls().h("a")), out(lambda: cls().t([1, [1]]))]
+                if got != want[cls]:
+                    fail("inherited_call_next_and_recurse_work_in_base_subclass_and_sibling", first_use_order=[classes[j].__name__ for j in order], round=rnd, cls=cls.__name__, got=got, want=want[cls])
+
+    # extend_super redefining a signature the base already has: the subclass's definition wins in the subclass only
+    class RB(OvldBase):
+        def g(self, x: int):
+            return "RB.int"
+
+        def g(self, x: str):
+            return "RB.str"
+
+    class RS(RB):
+        @extend_super
+        def g(self, x: int):
+            return "RS.int"
+
+    class RSS(RS):
+        @extend_super
+        def g(self, x: str):
+            return "RSS.str"
+
+    n += 3
+    got = [[out(lambda: c().g(1)), out(lambda: c().g("a"))] for c in (RB, RS, RSS)]
+    if got != [["RB.int", "RB.str"], ["RS.int", "RB.str"], ["RS.int", "RSS.str"]]:
+        fail("subclass_definition_replaces_identical_inherited_signature_in_the_subclass_only", got=got)
+    # sibling classes that start an overloaded method from the SAME plain function object stay independent
+    def shared_default(self, x: object):
+        return "default"
+
+    class Circle(OvldBase):
+        describe = shared_default
+
+        def describe(self, x: int):
+            return "Circle.int"
+
+    n += 1
+    circle_before = [out(lambda: Circle().describe(1)), out(lambda: Circle().describe("a"))]
+
+    class Square(OvldBase):
+        describe = shared_default
+
+        def describe(self, x: str):
+            return "Square.str"
+
+    n += 2
+    got = [out(lambda: Circle().describe(1)), out(lambda: Circle().describe("a")), out(lambda: Square().describe(1)), out(lambda: Square().describe("a"))]
+    if got != ["Circle.int", "default", "default", "Square.str"] or circle_before != ["Circle.int", "default"]:
+        fail("classes_sharing_a_plain_function_get_separate_overloaded_methods", got=got, circle_before=circle_before)
+
+    # many Literal overloads of a METHOD (lookup-table path of the value dispatcher): self is passed on every path,
+    # also when no literal matches and the call falls through to the inherited method
+    from typing import Literal
+
+    class Names(OvldBase):
+        def name(self, x: Literal[1]):
+            return ("one", self)
+
+        def name(self, x: Literal[2]):
+            return ("two", self)
+
+        def name(self, x: int):
+            return ("int", self)
+
+    class MoreNames(Names):
+        @extend_super
+        def name(self, x: Literal[3]):
+            return ("three", self)
+
+        @extend_super
+        def name(self, x: Literal[4]):
+            return ("four", self)
+
+        @extend_super
+        def name(self, x: Literal[5]):
+            return ("five", self)
+
+    for cls, vals in ((Names, (1, 2, 7)), (MoreNames, (1, 3, 5, 7))):
+        inst = cls()
+        for v in vals:
+            n += 1
+            r = out(lambda: inst.name(v))
+            want = {1: "one", 2: "two", 3: "three", 4: "four", 5: "five"}.get(v, "int")
+            if not (isinstance(r, tuple) and r[0] == want and r[1] is inst):
+                fail("literal_overloads_of_a_method_pass_self_on_every_path", cls=cls.__name__, value=v, got=repr(r)[:80], want=want)
     print(json.dumps(dict(evaluations=n, failing=list(failing.values()))))
     return 1 if failing else 0
 
